@@ -9,6 +9,7 @@ import sys
 
 from vlib import asm, env
 from vlib.runner import Failure, HarnessError, ShardResult, h64, hypothesis_search
+from vlib import sandbox
 from vlib.sandbox import Monitor, Scratch, reset_pickle_bindings
 
 ID = "C01"
@@ -26,7 +27,8 @@ RULE = (
     "independent effect monitor: CPython audit events (exec, compile, pickle.find_class, "
     "marshal.loads, os.system/exec*/posix_spawn/fork, subprocess.Popen, socket.*, ctypes.*, file "
     "removal/rename/mkdir, shutil.*) must be absent; import events and sys.modules additions of "
-    "any module named in the input must be absent; no file opened for writing and no new/changed "
+    "any module named in the input must be absent; no attribute named by the input is looked up "
+    "on already-loaded sentinel modules (stdlib-named and not); no file opened for writing and no new/changed "
     "file in the scratch cwd other than the CLI's declared report; no canary marker. "
     "Non-trivial = the input names >= 1 dangerous/canary global and parses (or is a corruption "
     "of such an input); distinct = distinct byte strings."
@@ -60,7 +62,10 @@ DANGEROUS_GLOBS = (
     ("verif_canary_pkg.sub", "thing"), ("verif_canary_pkg.sub.deeper", "x"),
     ("xml.etree.cElementTree", "XML"), ("wsgiref.simple_server", "make_server"),
     ("astunparse.printer", "Printer"), ("unittest.mock", "patch"), ("lib2to3.pgen2.driver", "load_grammar"),
+    # already-loaded sentinel modules (stdlib-named and not): any attribute resolution is recorded
+    ("antigravity", "geohash"), ("nntplib", "NNTP"), ("verif_loaded", "thing"), ("telnetlib", "Telnet"),
 )  # fmt: skip
+SENTINELS = ("antigravity", "nntplib", "verif_loaded", "telnetlib")
 FORBIDDEN = ("exec", "compile", "pickle.find_class", "marshal.loads", "os.system", "os.exec",
              "os.posix_spawn", "os.fork", "os.forkpty", "os.spawn", "subprocess.Popen", "socket.",
              "ctypes.", "os.remove", "os.rename", "os.mkdir", "os.rmdir", "os.unlink", "shutil.",
@@ -177,12 +182,14 @@ def observe(data, scratch):
         for i in range(1, len(parts) + 1):
             tokens.add(".".join(parts[:i]))
     before_files = scratch.listing()
+    sandbox.install_sentinels(SENTINELS)
     mods0 = set(sys.modules)
     reached = set()
     msg = None
     for name, thunk in entry_points(data, path, scratch):
         mods_before = set(sys.modules)
         sink = io.StringIO()
+        del sandbox.RESOLVED[:]
         with mon.watch() as events:
             try:
                 with contextlib.redirect_stdout(sink), contextlib.redirect_stderr(sink):
@@ -194,6 +201,9 @@ def observe(data, scratch):
                 if isinstance(e, KeyboardInterrupt):
                     raise
         evs = list(events)
+        if sandbox.RESOLVED:
+            msg = f"{name}: attribute(s) {sandbox.RESOLVED[:3]} named by the input were resolved on a loaded module"
+            break
         for ev in evs:
             if ev[0] == "import":
                 mod = ev[1]
